@@ -84,3 +84,19 @@ CHECKS["C17"] = {
     "technique": "contract-based deductive verification: loop invariants over z3 arrays (map representation invariant with ghost witness), z3; native replay battery",
 }
 NOT_APPLICABLE.pop("C17", None)
+
+CHECKS["C03"] = {
+    "category": "proof",
+    "text": ("The vectorised code0/1/2/4/4p.{__init__,_precompute,_precompute_alphasets,__call__} are executed on the current source under a "
+             "pointwise tensor semantics with symbolic shapes (S,H,A,B): the generic output element equals the piecewise specification written "
+             "from the statement for ALL real alpha and all (positive, for the multiplicative codes) triples, starting from the state left by ANY "
+             "history of earlier call shapes (class invariant: established by __init__, preserved by __call__ and by _precompute). The scalar "
+             "reference implementations are proved equal to the same specification path by path, hence fast == slow everywhere. code4's "
+             "coefficients are proved to solve the six boundary conditions (value, first, second derivative at +-alpha0) rather than compared "
+             "with a re-typed inverse matrix; spec lemmas: anchors at 0/+-1, continuity, C1/C2 for 4p and 4, uniqueness of the code-4 polynomial. "
+             "This check found code 2 discontinuous at +-1 and fast != slow below -1 (repaired by a fix: commit)."),
+    "note": ("reals for floats (floating-point neighbours of breakpoints only as reals); pow/log uninterpreted with pow(x,0)=1, pow(x,1)=x, "
+             "positivity; alpha0 = 1; tensor op contracts assumed (validated against numpy); _slow_interpolator_looper indexing bounded (shapes <= 2)"),
+    "technique": "contract-based deductive verification: symbolic execution of the real tensor code under pointwise-tensor op contracts, class invariant + z3 (NRA); native replay of counterexamples",
+}
+NOT_APPLICABLE.pop("C03", None)
